@@ -332,6 +332,11 @@ def translate(path=STD_NCL):
     return "\n".join(out) + "\n", asts
 
 
+def setup_gen():
+    """Called by `./verif setup` before the Coq build: regenerate coq/Gen/StdNumber.v from /repo."""
+    write_gen()
+
+
 def write_gen(ck=None):
     os.makedirs(GEN_DIR, exist_ok=True)
     text, asts = translate()
